@@ -157,22 +157,40 @@ theorem Action_unmarshalLeaf_ns (a : V) (d : Slice) : NS (Action.unmarshalLeaf a
          NXActionHeader_length_ns, NXActionHeader_setLength_ns, nxPrefix_ns, MatchField_unmarshalHeader_ns,
          MatchField_unmarshal_ns, readIDs_ns, rdIPv4_ns, rdIPv6_ns, rdPort_ns])
 
-/-- Action.Len() of any value -/
-theorem Action_lenM_ns (v : V) : NS (Action.lenM v) := by
-  unfold Action.lenM
+/-- Len() of every action kind except conntrack -/
+theorem Action_lenLeaf_ns (v : V) : NS (Action.lenLeaf v) := by
+  unfold Action.lenLeaf
   split <;> first
     | exact post_panic
     | ((first
         | unfold ActionHeader.lenM | unfold ActionOutput.lenM | unfold ActionSetqueue.lenM | unfold ActionGroup.lenM
         | unfold ActionMplsTtl.lenM | unfold ActionNwTtl.lenM | unfold ActionDecNwTtl.lenM
         | unfold ActionPush.lenM | unfold ActionPopVlan.lenM | unfold ActionPopMpls.lenM | unfold ActionSetField.lenM
-        | unfold NXActionHeader.lenM | unfold NXActionConnTrack.lenM
+        | unfold NXActionHeader.lenM
         | unfold NXActionConjunction.lenM | unfold NXActionRegLoad.lenM | unfold NXActionRegMove.lenM
         | unfold NXActionResubmit.lenM | unfold NXActionResubmitTable.lenM | unfold NXActionCTNAT.lenM
         | unfold NXActionOutputReg.lenM | unfold NXActionCTClear.lenM | unfold NXActionDecTTL.lenM
         | unfold NXActionDecTTLCntIDs.lenM | unfold NXActionNote.lenM | unfold NXActionRegLoad2.lenM
         | unfold NXActionController.lenM | (unfold NXActionLearn.lenM NXActionLearn.len))
        post_auto [NXActionHeader_length_ns, NXActionHeader_setLength_ns, (MatchField_lenM_post _).ns, specsLen_ns])
+
+theorem NXActionHeader_lenM_ns (v : V) : NS (NXActionHeader.lenM v) := ns_same _ _
+
+/-- Action.Len() at every nesting depth of conntrack actions -/
+theorem Action_lenD_ns : ∀ depth v, NS (Action.lenD depth v) := by
+  intro depth
+  induction depth with
+  | zero => intro v; exact post_panic
+  | succ n ih =>
+    intro v
+    unfold Action.lenD
+    split
+    · unfold NXActionConnTrack.lenWith
+      post_auto [NXActionHeader_lenM_ns, mapM2_ns, ih, NXActionHeader_setLength_ns]
+    · exact Action_lenLeaf_ns v
+
+/-- Action.Len() of any value -/
+theorem Action_lenM_ns (v : V) : NS (Action.lenM v) := Action_lenD_ns _ v
 
 theorem DecodeNxAction_ns (d : Slice) : NS (DecodeNxAction d) := by
   unfold DecodeNxAction; post_auto
